@@ -54,5 +54,5 @@ def handle (fs : List String) : String :=
       | .error e => "err:" ++ (reprStr e).replace "Obao.GF256.CombineErr." ""
   | _ => "bad-op"
 
-def stream : Driver.Stream := .stateless handle
+def streams : List (String × Driver.Stream) := [("gf256", .stateless handle)]
 end Driver.GF256
